@@ -215,8 +215,24 @@ class EmitV3(V3Unit):
             # agent (same engine id, any boots/time) and store it, and may store that timing for the engine
             disco_cls = get_cls(rt, interp, "puresnmp_plugins.security.usm:DiscoData")
 
+            rt.global_write_log = []
+
             def other_tasks(i):
                 awaits["n"] += 1
+                # state that outlives the call and is shared between clients or tasks (an object created at import time or in a
+                # class body) and that THIS call has written: another task running the same code writes it too, with its values
+                for shared, field in list(getattr(rt, "global_write_log", [])):
+                    old = shared.fields.get(field) if isinstance(shared, Obj) and field is not None else None
+                    if isinstance(old, bool) or old is None:
+                        if old is None and isinstance(shared, Obj):
+                            continue
+                        raise Undecided("another task may overwrite the shared state this call wrote (%r)" % (field,))
+                    if isinstance(old, (int, SInt)):
+                        shared.fields[field] = ctx.fresh_int("other_tasks_%s" % field)
+                    elif isinstance(old, (bytes, SBytes)):
+                        shared.fields[field] = ctx.fresh_bytes("other_tasks_%s" % field)
+                    else:
+                        raise Undecided("another task may overwrite the shared state this call wrote (%s)" % field)
                 if ctx.branch(ctx.fresh_bool("other_task_stored_its_discovery")):
                     b2, t2 = ctx.fresh_int("other_boots"), ctx.fresh_int("other_time")
                     mproc.fields["disco"] = Obj(disco_cls, {"authoritative_engine_id": E, "authoritative_engine_boots": b2,
@@ -305,13 +321,13 @@ class EmitV3(V3Unit):
                       exc is not None and len(sent) == 1 and mproc.fields.get("disco") is None)
             return "refused"
         if len(sent) == 1:
-            chk(("C07", "C12", "C05"), DISC, "raises", "only-InvalidResponseId-and-only-for-a-foreign-message-id",
+            chk(("C07", "C12", "C05", "C14"), DISC, "raises", "only-InvalidResponseId-and-only-for-a-foreign-message-id",
                 And(exc is not None and exc_is(exc, inv), Not(same_id)))
             return "refused"
-        chk(("C07", "C12"), DISC, "ensures", "a-discovery-reply-is-accepted-only-with-the-probes-message-id", same_id)
+        chk(("C07", "C12", "C14"), DISC, "ensures", "a-discovery-reply-is-accepted-only-with-the-probes-message-id", same_id)
         # ---------------- the request (second datagram)
         ok = len(sent) == 2 and exc is not None and exc_is(exc, tmo)
-        chk(("C05", "C12"), T, "ensures", "exactly-one-request-datagram-after-discovery", ok)
+        chk(("C05", "C12", "C14"), T, "ensures", "exactly-one-request-datagram-after-discovery", ok)
         if not ok:
             return "?"
         w = rt.wire
@@ -601,6 +617,8 @@ class ReceiveV3(V3Unit):
         hashname, priv = LEVELS[level]
         if mode == "authentic-minimal":
             self.props = ("C10", "C06") + (("C11",) if priv else ())
+        elif mode == "authentic-minimal-error":
+            self.props = ("C08",)
         elif mode == "any-error":
             self.props = ("C08", "C20") + (("C09",) if hashname else ()) + (("C11",) if priv and encrypted else ())
         else:
@@ -620,7 +638,8 @@ class ReceiveV3(V3Unit):
         w = rt.wire
         creds = self.v3creds(interp, self.level)
         hashname, use_priv = LEVELS[self.level]
-        minimal = self.mode == "authentic-minimal"
+        minimal = self.mode.startswith("authentic-minimal")
+        with_error = self.mode == "authentic-minimal-error"
         FA = rfc.Forms("min") if minimal else rfc.Forms("any", ctx)
         msgid, maxsize, flags = ctx.fresh_int("msg_id"), ctx.fresh_int("max_size"), ctx.fresh_int("msg_flags")
         ctx.assume(And(flags >= 0, flags < 256))
@@ -653,7 +672,7 @@ class ReceiveV3(V3Unit):
             # what a conformant peer sends at the user's level: flags of the level, the user's name, digest over the
             # message exactly as sent (minimal BER) with the digest field zeroed
             want_flags = (2 if use_priv else 0) + (1 if hashname else 0)
-            ctx.assume(And(flags.eq(want_flags), interp.eq(user, own_user), es.eq(0)))
+            ctx.assume(And(flags.eq(want_flags), interp.eq(user, own_user), Not(es.eq(0)) if with_error else es.eq(0)))
             if use_priv != self.encrypted:
                 return "n/a"
             if hashname:
@@ -727,6 +746,17 @@ class ReceiveV3(V3Unit):
                     [n], z3.Implies(z3.And(n >= 0, n != 127), w.f_len_x690(n) == w.f_len_min(n))))
                 rt.theory.note("x690.util.encode_length(n) is the minimal BER length for every n >= 0 except n == 127 "
                                "(verified from the x690 source by the EncodeLength unit; 127 is finding D9)")
+            if with_error:
+                # C08 for SNMPv3: the agent's error status in an AUTHENTIC response of the user's level surfaces as the
+                # documented exception carrying that status (which class belongs to which status: the table units) - not as
+                # data, and not folded into another error. (A TLV of content length 127 is finding D9, C10's: excluded here.)
+                if lens127 is not None:
+                    ctx.assume(Not(lens127))
+                err = get_cls(rt, interp, "puresnmp.exc:ErrorResponse")
+                ok = exc is not None and exc_is(exc, err)
+                chk(("C08",), T, "raises", "an-authentic-response-with-an-error-status-surfaces-as-ErrorResponse-carrying-it",
+                    ok and interp.eq(exc.fields.get("error_status"), es))
+                return "raises" if exc is not None else "accepted"
             chk(("C10", "C06"), T, "ensures", "an-authentic-minimal-BER-response-of-the-users-level-is-accepted", exc is None,
                 known=lens127, finding="D9")
             if use_priv and not (hashname and lens127 is not None and False):
@@ -990,6 +1020,7 @@ def units_rx(tier):
         for enc in (False, True):
             us.append(ReceiveV3(lv, enc, 1, "any"))
         us.append(ReceiveV3(lv, priv, 1, "authentic-minimal"))
+        us.append(ReceiveV3(lv, priv, 1, "authentic-minimal-error"))
     us.append(ReceiveV3("authPriv-md5", True, 2, "any"))
     us.append(ReceiveV3("authPriv-sha1", True, 1, "authentic-minimal", padded=True))
     us.append(ReceiveV3("authNoPriv-sha1", False, 0, "any"))
